@@ -5,7 +5,7 @@ CONSTANTS
  ExpKinds = {"all","none","r*"}
  ReKinds = {"none","r*"}
  Types = {"rules","templates"}
- MaxOps = 4
+ MaxOps = 3
  MaxDecl = 3
  NoCleanup = FALSE
 INIT InitRe
